@@ -125,3 +125,40 @@ def prune_cache(keep=12):
 
 
 ASAN_ENV = {"ASAN_OPTIONS": "detect_leaks=0:abort_on_error=0:exitcode=66:allocator_may_return_null=1", "UBSAN_OPTIONS": "halt_on_error=1:exitcode=67:print_stacktrace=1"}
+
+
+def build_cxx(flavor="asan", repo=None):
+    """C19: reproc++ from the working tree over the mock C API (harness/cxx)."""
+    repo = repo or REPO
+    srcs = [os.path.join(repo, "reproc++/src/reproc.cpp")]
+    hdrs = glob.glob(os.path.join(repo, "reproc++/include/reproc++/*.hpp")) + glob.glob(os.path.join(repo, "reproc++/include/reproc++/detail/*.hpp")) + \
+        glob.glob(os.path.join(repo, "reproc/include/reproc/*.h"))
+    hsrc = [os.path.join(HARNESS, "cxx/cxxdrv.cpp"), os.path.join(HARNESS, "cxx/mock_reproc.c"), os.path.join(HARNESS, "json.c"), os.path.join(HARNESS, "json.h")]
+    key = tree_hash(srcs + hdrs + hsrc, "cxx" + flavor)
+    d = os.path.join(CACHE, key)
+    exe = os.path.join(d, "cxxdrv")
+    if os.path.exists(exe):
+        return exe
+    tmp = d + ".tmp%d" % os.getpid()
+    shutil.rmtree(tmp, ignore_errors=True)
+    os.makedirs(tmp)
+    inc = ["-I" + os.path.join(repo, "reproc++/include"), "-I" + os.path.join(repo, "reproc/include"), "-I" + HARNESS]
+    flags = SAN_FLAGS[flavor]
+    cmds = [["gcc", "-c"] + flags + ["-std=gnu11"] + inc + [os.path.join(HARNESS, "cxx/mock_reproc.c"), "-o", os.path.join(tmp, "mock.o")],
+            ["gcc", "-c"] + flags + ["-std=gnu11"] + inc + [os.path.join(HARNESS, "json.c"), "-o", os.path.join(tmp, "json.o")],
+            ["g++", "-c"] + flags + ["-std=c++11", "-w"] + inc + [srcs[0], "-o", os.path.join(tmp, "reprocxx.o")],
+            ["g++", "-c"] + flags + ["-std=c++11"] + inc + [os.path.join(HARNESS, "cxx/cxxdrv.cpp"), "-o", os.path.join(tmp, "cxxdrv.o")]]
+    procs = [subprocess.Popen(c, stderr=subprocess.PIPE) for c in cmds]
+    for c, p in zip(cmds, procs):
+        _, err = p.communicate()
+        if p.returncode != 0:
+            shutil.rmtree(tmp, ignore_errors=True)
+            raise Infra("compile failed: %s\n%s" % (" ".join(c[-3:]), err.decode()[-3000:]))
+    r = subprocess.run(["g++"] + flags + [os.path.join(tmp, x) for x in ("mock.o", "json.o", "reprocxx.o", "cxxdrv.o")] + ["-o", os.path.join(tmp, "cxxdrv")],
+                       capture_output=True, text=True)
+    if r.returncode != 0:
+        shutil.rmtree(tmp, ignore_errors=True)
+        raise Infra("link failed:\n" + r.stderr[-3000:])
+    shutil.rmtree(d, ignore_errors=True)
+    os.rename(tmp, d)
+    return exe
